@@ -3,6 +3,9 @@
 # (default: the seed's own property), and restores /repo. Refuses to run on a dirty /repo.
 ID=$1; shift; PROPS="${@:-${ID%%-*}}"
 if [ -n "$(git -C /repo status --porcelain)" ]; then echo "seedtest: /repo has uncommitted changes; commit them first" >&2; exit 2; fi
+SAVE=$(mktemp -d /var/tmp/govc-evid.XXXXXX); cp -a /verif/evidence/. $SAVE/ 2>/dev/null
 /verif/applyseed.sh $ID || { echo "seedtest: cannot apply $ID"; git -C /repo checkout -- .; exit 2; }
 for p in $PROPS; do /verif/vcheck $p quick 2>&1 | grep -E "^(FAILED|VIOLATION|govc|UNDECIDED|KNOWN)" | cut -c1-220; done
 git -C /repo checkout -- . ; git -C /repo clean -fdq
+# evidence files must describe runs on the unchanged tree only: restore them
+cp -a $SAVE/. /verif/evidence/ 2>/dev/null; rm -rf $SAVE
